@@ -718,8 +718,9 @@ impl Engine for CliSim {
                 }
                 Some(core_of(op.view().block_on().ok()?.store_view()))
             };
+            // operations this step added: reachable from the new head, not from the old
             let new_ops = {
-                let before: HashSet<&String> = older_ops.iter().collect();
+                let before: HashSet<String> = all_ops(&loader, repo_before.operation()).iter().map(|o| o.id().hex()).collect();
                 all_ops(&loader, repo_after.operation()).iter().filter(|o| !before.contains(&o.id().hex())).count()
             };
             // did the command's operation land directly on the operation that was
@@ -730,13 +731,19 @@ impl Engine for CliSim {
                 .block_on()
                 .is_ok_and(|ps| ps.len() == 1 && ps[0].id() == repo_before.op_id());
             match kind {
+                Kind::Normal if new_ops == 0 => {
+                    // nothing was added to the operation log (a failed command, a
+                    // status without changes): an undo chain in progress continues
+                }
                 Kind::Normal => {
-                    if at_op.is_some() || !ok || ignore_wc || in_ws2 || undone > 0 {
+                    // an ordinary operation ends any undo chain
+                    let chain_was_active = undone > 0 || anchor.is_some();
+                    undone = 0;
+                    anchor = None;
+                    if at_op.is_some() || !ok || ignore_wc || in_ws2 || chain_was_active {
                         // the undo stack is only judged over plain successful
                         // commands in the default workspace
                         segment_ops = 0;
-                        undone = 0;
-                        anchor = None;
                         if ok && at_op.is_none() && !ignore_wc && !in_ws2 {
                             segment_ops = new_ops;
                         }
